@@ -26,7 +26,9 @@ EXTENDS Integers, Sequences, FiniteSets, TLC, Json, SequencesExt
 
 CONSTANTS Ctx,        \* context names, strings
           Shared,     \* FALSE: ideal; TRUE: implementation-shaped
-          ScriptSet,  \* set of functions Ctx -> Seq(1..Len(OpList)): scripts as indices into OpList
+          Seeds, Cases(_), \* the script assignments to explore: UNION {Cases(s) : s \in Seeds}, each a function
+                      \* Ctx -> Seq(1..Len(OpList)) (scripts as indices into OpList). Split in two levels
+                      \* because TLC computes initial states in one thread: Init only picks a seed.
           Policies    \* allowed reactions to assignment on a builtin type, see SetTypeAttr
 
 Mods     == {"math", "umod"}   \* math: implemented in Go; umod: Python source found on sys.path
@@ -58,10 +60,11 @@ Component(o) ==
     [] o \in {"MutateImplObject", "ReadImplObject"}     -> [name |-> "object in ModuleImpl.Globals (os.environ)", writer |-> "MutateImplObject"]
     [] o = "ReplLine"                                   -> [name |-> "vm.PrintExpr", writer |-> "ReplLine"]
 
-VARIABLES script, policy,   \* the case: chosen in Init, never changed
-          solo,             \* function of the case, computed once in Init: SoloOf(c, script[c], policy)
+VARIABLES seed, started,    \* Init picks a seed; the first step (Pick) picks the case and starts the contexts
+          script, policy,   \* the case: chosen by Pick, never changed afterwards
+          solo,             \* function of the case, computed by Pick: SoloOf(c, script[c], policy)
           ip, main, store, syspath, sysargv, builtins, replst, shared, obs, order
-vars == <<script, policy, solo, ip, main, store, syspath, sysargv, builtins, replst, shared, obs, order>>
+vars == <<seed, started, script, policy, solo, ip, main, store, syspath, sysargv, builtins, replst, shared, obs, order>>
 
 None    == [has |-> FALSE, v |-> ""]
 Some(v) == [has |-> TRUE, v |-> v]
@@ -90,7 +93,7 @@ View0  == [tattr |-> None, env |-> None, pe |-> "default"]
 Cat(a, b) == IF a = "" THEN b ELSE IF b = "" THEN a ELSE a \o "/" \o b
 JoinBar(q) == FoldLeft(LAMBDA acc, x : IF acc = "" THEN x ELSE acc \o "|" \o x, "", q)
 OpEntry(i, v)   == [k |-> "op", i |-> i, v |-> v]
-EchoEntry(i, v) == [k |-> "echo", i |-> i, v |-> "'" \o v \o "'"]
+EchoEntry(v)    == [k |-> "echo", i |-> 0, v |-> "'" \o v \o "'"]   \* the REPL prints repr(value)
 
 \* first use of module m in this context creates the context's instance (and runs a source body)
 Loaded(L, m) == [L EXCEPT !.store[m].loaded = TRUE]
@@ -126,7 +129,7 @@ Eff(c, st, L, S, pol) ==
              echoTo |-> "", echo |-> OpEntry(0, "")]
        [] o = "ReplLine" /\ st.ph = 2 ->
             [L |-> [L EXCEPT !.replst.mid = FALSE], S |-> [S EXCEPT !.pe = L.replst.saved], out |-> <<OpEntry(i, "")>>,
-             echoTo |-> S.pe, echo |-> EchoEntry(i, v)]
+             echoTo |-> S.pe, echo |-> EchoEntry(v)]
 
 \* what context c observes when script s runs alone under policy pol
 SoloOf(c, s, pol) ==
@@ -146,9 +149,11 @@ CurStep(c) == LET o == OpList[script[c][ip[c]]] IN
 
 UsesTypes(a) == \E c \in Ctx : \E i \in 1..Len(a[c]) : OpList[a[c][i]].op = "SetTypeAttr"
 
-Init == /\ script \in ScriptSet
-        /\ policy \in (IF UsesTypes(script) THEN Policies ELSE {"percontext"})
-        /\ solo = [c \in Ctx |-> SoloOf(c, script[c], policy)]
+Init == /\ seed \in Seeds
+        /\ started = FALSE
+        /\ script = [c \in Ctx |-> <<>>]
+        /\ policy = "percontext"
+        /\ solo = [c \in Ctx |-> <<>>]
         /\ ip = [c \in Ctx |-> 1]
         /\ main = [c \in Ctx |-> Local0.main]
         /\ store = [c \in Ctx |-> Local0.store]
@@ -160,7 +165,18 @@ Init == /\ script \in ScriptSet
         /\ obs = [c \in Ctx |-> <<>>]
         /\ order = <<>>
 
+\* the first step of every behaviour: choose the case
+Pick == /\ ~started
+        /\ started' = TRUE
+        /\ \E a \in Cases(seed) :
+             /\ script' = a
+             /\ \E pol \in (IF UsesTypes(a) THEN Policies ELSE {"percontext"}) :
+                  /\ policy' = pol
+                  /\ solo' = [c \in Ctx |-> SoloOf(c, a[c], pol)]
+        /\ UNCHANGED <<seed, ip, main, store, syspath, sysargv, builtins, replst, shared, obs, order>>
+
 Step(c) ==
+  /\ started
   /\ ip[c] <= Len(script[c])
   /\ LET e == Eff(c, CurStep(c), Pack(c), shared[c], policy) IN
      /\ ip' = [ip EXCEPT ![c] = IF e.L.replst.mid THEN @ ELSE @ + 1]
@@ -174,13 +190,13 @@ Step(c) ==
      /\ shared' = IF Shared THEN [d \in Ctx |-> e.S] ELSE [shared EXCEPT ![c] = e.S]
      /\ obs' = [d \in Ctx |-> obs[d] \o (IF d = e.echoTo THEN <<e.echo>> ELSE <<>>)
                                      \o (IF d = c THEN e.out ELSE <<>>)]
-     /\ UNCHANGED <<script, policy, solo>>
+     /\ UNCHANGED <<seed, started, script, policy, solo>>
 
-Next == \E c \in Ctx : Step(c)
+Next == Pick \/ \E c \in Ctx : Step(c)
 Spec == Init /\ [][Next]_vars
 
 IsPrefixOf(a, b) == Len(a) <= Len(b) /\ SubSeq(b, 1, Len(a)) = a
-Final == \A c \in Ctx : ip[c] > Len(script[c])
+Final == started /\ \A c \in Ctx : ip[c] > Len(script[c])
 
 NonInterference == \A c \in Ctx : IsPrefixOf(obs[c], solo[c])
 FinalEqualsSolo == Final => \A c \in Ctx : obs[c] = solo[c]
@@ -190,8 +206,8 @@ Emit == Final => PrintT(ToJson([script |-> script, order |-> order, obs |-> obs,
 
 \* implementation-shaped run: print the operation at which a behaviour first leaves NonInterference
 LeakWitness ==
-  (NonInterference /\ ~NonInterference') =>
-     LET c == CHOOSE d \in Ctx : Len(order') > Len(order) /\ d = order'[Len(order')]
+  (started /\ NonInterference /\ ~NonInterference') =>
+     LET c == order'[Len(order')]
          o == OpList[script[c][ip[c]]] IN
      PrintT(ToJson([leak |-> Component(o.op), at |-> o.op]))
 
